@@ -271,6 +271,12 @@ theorem c19_decoded_remarshals (r : VLA) (bs : Bytes) (n : Nat) (v : VLA) (h : u
 example : unmarshal default [0xC1, 0x00, 0x05] = .ok 3 ⟨3, 1, [⟨0, 0, [5], 0, 0, 0⟩], false⟩ := by decide
 example : marshalGo ⟨3, 1, [⟨0, 0, [5], 0, 0, 0⟩], false⟩ = .err .streamID := by decide
 
+/-- A by-product: the `checkRemainingLen(in)` after ReadLeb128 in unmarshalTemporalLayers is dead
+    code (ReadLeb128 never reports more bytes than its slice holds); the harness never reaches its
+    body either (statement coverage of vlaextension.go is otherwise complete). -/
+theorem c19_leb_length_check_dead (bs : Bytes) (todo : List Int) (off o : Nat) (h : off ≤ bs.length) :
+    rdRates bs todo off ≠ .fail o .tooShort := rdRates_never_tooShort bs todo off o h
+
 /-- Marshal never panics, whatever the allocation (valid, rejected, or accepted though not valid:
     unsorted layers, negative bitrates, out-of-range resolutions): once validation has passed, the
     buffer it sizes is filled exactly. -/
